@@ -330,7 +330,7 @@ static hazard_pointer_thread_record_t* mf_record(int slot) {
 static void mpmc_setup(void) {
   mf_recycle = (int)cfg_get("recycle", 1);
   mf_far = (int)cfg_get("far", 0);
-  if (mf_far) mf_recycle = 1;  // far nodes are never handed to free()
+
   mf_head = NULL;
   mpmc_fifo_node_t* init = malloc(sizeof *init);
   init->hazard.gc_data = 0;
